@@ -189,7 +189,7 @@ impl Scenario for Rl {
             .window_type(self.window);
         let layer = if with_listeners { layer.on_permit_acquired(|_| {}).on_permit_rejected(|_| {}).on_permits_refreshed(|_| {}) } else { layer };
         let layer = layer.build();
-        X { svc: layer.layer(GatedInner::new(w.inner.clone())), pre: None }
+        X { svc: layer.clone().layer(GatedInner::new(w.inner.clone())), pre: None }
     }
     fn arrive(&self, w: &mut World, x: &mut X, c: usize, _v: u8) {
         do_arrive(w, &mut x.svc, c, self.single_handle);
